@@ -84,36 +84,44 @@ for H in (2, 3):
             stale = env.scalar('stale_time', nonneg=True, integer=True, regimes=('generic', 'zero'))[0]
             system.systime = stale if env.sym else int(stale)         # poisoned time counter
             solver = lq.LQR(system, Qm, p, H)
-            x, u, cost = solver(x0, 1, u_nom)
-            us = [u[0, t, 0] for t in range(H)]
-            xs = true_rollout(T, sysm, x0[0, 0], us)
-            env.eq('trajectory starts at x_init', x[0, 0, 0], x0[0, 0])
-            for t in range(H):
-                env.eq(f'x[{t + 1}] satisfies the transition at the true time {t}', x[0, t + 1, 0], xs[t + 1])
-            def stage(xt, ut):
-                tau = T.stack([xt, ut]).reshape(2)
-                return (tau @ Qm[0] @ tau) / 2 + (p[0] * tau).sum()
-            env.eq('reported cost is the sum of 1/2 tau^T Q tau + p^T tau', cost[0], sum(stage(xs[t], us[t]) for t in range(H)))
-            # stationarity of the true cost in the input sequence, at the returned inputs
-            if env.sym:
-                from pvc import algebra as A, storch as st, atoms as AT
-                uv = [A.CTX.sym(f'_u{t}', aux=True) for t in range(H)]
-                uvt = [st.tensor(v) for v in uv]
-                xv = true_rollout(T, sysm, x0[0, 0], uvt)
-                J = sum(stage(xv[t], uvt[t]) for t in range(H))
-                Jf = J._a.reshape(-1)[0]
-                sub = {list(v.num.vars())[0]: us[t]._a.reshape(-1)[0] for t, v in enumerate(uv)}
-                for t, v in enumerate(uv):
-                    g = A.Frac(Jf.num.pdiff(list(v.num.vars())[0]), Jf.den).subs(sub)
-                    env.eq(f'd cost / d u[{t}] = 0 at the returned inputs (global minimiser, Q > 0)', st.tensor(g), 0)
-            else:
-                uu = T.stack(us).detach().clone().requires_grad_(True)
-                sy = tuple(s_.detach() for s_ in sysm)
-                xv = true_rollout(T, sy, x0[0, 0], [uu[t] for t in range(H)])
-                J = sum(stage(xv[t], uu[t]) for t in range(H))
-                g, = T.autograd.grad(J, uu)
+            def check(tag, x0, x, u, cost):
+                us = [u[0, t, 0] for t in range(H)]
+                xs = true_rollout(T, sysm, x0[0, 0], us)
+                env.eq(tag + 'trajectory starts at x_init', x[0, 0, 0], x0[0, 0])
                 for t in range(H):
-                    env.eq(f'd cost / d u[{t}] = 0 at the returned inputs (global minimiser, Q > 0)', g[t], 0.0)
+                    env.eq(tag + f'x[{t + 1}] satisfies the transition at the true time {t}', x[0, t + 1, 0], xs[t + 1])
+                def stage(xt, ut):
+                    tau = T.stack([xt, ut]).reshape(2)
+                    return (tau @ Qm[0] @ tau) / 2 + (p[0] * tau).sum()
+                env.eq(tag + 'reported cost is the sum of 1/2 tau^T Q tau + p^T tau', cost[0], sum(stage(xs[t], us[t]) for t in range(H)))
+                # stationarity of the true cost in the input sequence, at the returned inputs
+                if env.sym:
+                    from pvc import algebra as A, storch as st, atoms as AT
+                    uv = [A.CTX.sym(f'_u{t}', aux=True) for t in range(H)]
+                    uvt = [st.tensor(v) for v in uv]
+                    xv = true_rollout(T, sysm, x0[0, 0], uvt)
+                    J = sum(stage(xv[t], uvt[t]) for t in range(H))
+                    Jf = J._a.reshape(-1)[0]
+                    sub = {list(v.num.vars())[0]: us[t]._a.reshape(-1)[0] for t, v in enumerate(uv)}
+                    for t, v in enumerate(uv):
+                        g = A.Frac(Jf.num.pdiff(list(v.num.vars())[0]), Jf.den).subs(sub)
+                        env.eq(tag + f'd cost / d u[{t}] = 0 at the returned inputs (global minimiser, Q > 0)', st.tensor(g), 0)
+                else:
+                    uu = T.stack(us).detach().clone().requires_grad_(True)
+                    sy = tuple(s_.detach() for s_ in sysm)
+                    xv = true_rollout(T, sy, x0[0, 0], [uu[t] for t in range(H)])
+                    J = sum(stage(xv[t], uu[t]) for t in range(H))
+                    g, = T.autograd.grad(J, uu)
+                    for t in range(H):
+                        env.eq(tag + f'd cost / d u[{t}] = 0 at the returned inputs (global minimiser, Q > 0)', g[t], 0.0)
+            x, u, cost = solver(x0, 1, u_nom)
+            check('', x0, x, u, cost)
+            # a second solve on the same LQR object: another start state, and the SAME nominal-input tensor rewritten in place
+            # (a persistent warm-start buffer) - the result must not depend on the earlier call
+            x0b = env.vec('x_init_b', 1).reshape(1, 1)
+            u_nom.copy_(env.vec('u_nom_b', H).reshape(1, H, 1))
+            xb, ub, costb = solver(x0b, 1, u_nom)
+            check('second solve, nominal inputs rewritten in place: ', x0b, xb, ub, costb)
             env.safe('defined', x, u, cost)
     mk()
 
